@@ -227,12 +227,28 @@ QUERIES = [
     ("SELECT k, x FROM #o ORDER BY x, k", None),
     ("SELECT x FROM #o ORDER BY k", None),
     ("SELECT s, x FROM #t ORDER BY x DESC, s", None),
+    # the first statements of a fresh connection that need its account / commodity indexes
+    ("SELECT account, open_date(account) AS o, close_date(account) AS c FROM #accounts ORDER BY account", None),
+    ("SELECT account, open_date(account) AS o, open_meta(account, 'institution') AS m, vyield(1) AS y WHERE number > 0", None),
+    ("SELECT name, meta FROM #commodities ORDER BY name", None),
+    ("SELECT DISTINCT currency, commodity_meta(currency, 'name') AS n, currency_meta(currency, 'export') AS e ORDER BY currency", None),
+    ("SELECT type, count(*) AS n FROM #entries GROUP BY type ORDER BY type", None),
+    ("SELECT date, currency, amount FROM #prices ORDER BY date, currency", None),
 ]
+
+
+class YList(list):
+    """The ledger's directives: every scan of them (table iteration, index building) has a yield point per directive."""
+
+    def __iter__(self):
+        for x in list.__iter__(self):
+            yield_point()
+            yield x
 
 
 def connect(ledger_text):
     entries, errors, options = ledgers.load(ledger_text)
-    conn = ledgers.connect_entries(entries, options)
+    conn = ledgers.connect_entries(YList(entries), options)
     conn.tables['postings'] = YPostings(entries, options)
     conn.tables['t'] = YTable(*TABLE_T)
     conn.tables['u'] = YTable(*TABLE_U)
@@ -308,7 +324,8 @@ def prop_schedule(sh, case):
         if case.get('as_text'):
             # the statement goes through Connection.execute as text (parsed inside the thread)
             return lambda: conns[i].execute(text, params).fetchall()
-        statement = parsed_for_slot(text, i)
+        # ... unless the case says so: one parsed statement object serves all threads executing that text
+        statement = parsed_for_slot(text, 0 if case.get('shared_parsed') else i)
         return lambda: conns[i].execute(statement, params).fetchall()
     sched = Sched(n, schedule, case.get('period', 1))
     _CURRENT[0] = sched
@@ -357,7 +374,7 @@ def schedule_case(draw):
     if same:
         return {'queries': qs, 'sharing': 'shared', 'schedule': schedule, 'as_text': draw(st.booleans())}
     return {'queries': qs, 'sharing': draw(st.sampled_from(['shared', 'separate', 'separate-ledgers'])), 'schedule': schedule,
-            'as_text': draw(st.integers(0, 3)) == 0}
+            'as_text': draw(st.integers(0, 3)) == 0, 'shared_parsed': draw(st.integers(0, 2)) == 0}
 
 
 def prop_exhaustive(sh, case):
@@ -365,7 +382,7 @@ def prop_exhaustive(sh, case):
     fails = []
     pairs = [((0, 0), 'separate'), ((0, 0), 'shared'), ((2, 1), 'separate-ledgers'), ((12, 13), 'shared'), ((16, 17), 'shared'),
              ((8, 9), 'shared'), ((3, 6), 'separate'), ((21, 21), 'shared'), ((22, 22), 'shared'), ((4, 4), 'shared'), ((23, 24), 'separate'),
-             ((25, 26), 'separate'), ((29, 30), 'shared'), ((31, 32), 'shared'), ((31, 34), 'separate')]
+             ((25, 26), 'separate'), ((29, 30), 'shared'), ((31, 32), 'shared'), ((31, 34), 'separate'), ((35, 36), 'shared'), ((37, 38), 'shared')]
     L = case['length']
     mine = [(p, s) for i, (p, s) in enumerate(pairs) if i % case['of'] == case['index']]
     for (qa, qb), sharing in mine:
@@ -378,7 +395,7 @@ def prop_exhaustive(sh, case):
     return fails
 
 
-TRACE_PAIRS = [(20, 29), (20, 20), (29, 30), (19, 25), (26, 27), (0, 1), (2, 2), (4, 7), (8, 9), (10, 11), (12, 13), (16, 17), (15, 14),
+TRACE_PAIRS = [(35, 36), (35, 35), (36, 38), (37, 38), (39, 40), (8, 9), (16, 17), (12, 13), (20, 29), (20, 20), (29, 30), (19, 25), (26, 27), (0, 1), (2, 2), (4, 7), (8, 9), (10, 11), (12, 13), (16, 17), (15, 14),
                (21, 22), (23, 24), (5, 23), (33, 34), (6, 7), (3, 20), (19, 28)]
 
 
@@ -396,7 +413,7 @@ def trace_case(draw):
     lead = draw(st.lists(st.tuples(st.integers(0, 1), st.sampled_from([1, 2, 3, 5, 8, 13, 40, 150, 600, 2500])), max_size=3))
     return {'queries': qs, 'sharing': draw(st.sampled_from(['shared', 'shared', 'separate', 'separate-ledgers'])),
             'schedule': [t for t, k in lead for _ in range(k)], 'period': draw(st.sampled_from([1, 1, 2, 3, 5, 7, 11, 31, 97])),
-            'as_text': draw(st.booleans()), 'trace': True}
+            'as_text': draw(st.booleans()), 'trace': True, 'shared_parsed': draw(st.integers(0, 2)) == 0}
 
 
 def prop_module(sh, case):
@@ -413,10 +430,9 @@ def run(sh):
     if sh.index == 0:
         for sig, detail in prop_module(sh, None):
             sh.fail(sig, detail, None, 'module')
-    case = {'length': 8 if sh.tier == 'quick' else 12, 'index': sh.index % 15, 'of': 15}
-    if sh.index < 15:
-        for sig, detail in prop_exhaustive(sh, case):
-            sh.fail(sig, detail, case, 'exhaustive')
+    case = {'length': 8 if sh.tier == 'quick' else 12, 'index': sh.index, 'of': sh.n}
+    for sig, detail in prop_exhaustive(sh, case):
+        sh.fail(sig, detail, case, 'exhaustive')
     sh.extra['exhaustive_schedule_prefix_length'] = case['length']
     sh.search('schedule', schedule_case(), prop_schedule, quick=4000, thorough=100000)
     sh.search('trace', trace_case(), prop_schedule, quick=320, thorough=8000)
